@@ -441,6 +441,7 @@ pub fn spec_for(prop: &str) -> Option<SeqSpec> {
                 exhaust: 12,
                 free_subset: 10,
                 max_order: 0,
+                free_tree: 10,
                 get_always_slot: true,
                 ..Weights::base(1)
             },
@@ -472,6 +473,8 @@ pub fn spec_for(prop: &str) -> Option<SeqSpec> {
                     Op::Put { what: PutWhat::Held(0xffff), class: 0, slot: SlotSel::None },
                     Op::Put { what: PutWhat::Held(0x8000), class: 0, slot: s0() },
                     Op::Put { what: PutWhat::Held(0xffff), class: 0, slot: s0() },
+                    Op::FreeTree { reserved: true, tree: 0, class: 0, slot: SlotSel::None },
+                    Op::FreeTree { reserved: false, tree: 0, class: 0, slot: SlotSel::None },
                     Op::FreeSubset { mask: 0x0001_0001, class: 0, slot: SlotSel::None },
                     Op::FreeSubset { mask: 0xffff_ffff, class: 0, slot: s0() },
                 ]
